@@ -87,3 +87,44 @@ Theorem C13_key_id_valid_spec : forall nkeys id,
   Ok (match entry_index nkeys id with Some _ => true | None => false end).
 Proof. exact key_id_valid_spec. Qed.
 Print Assumptions C13_key_id_valid_spec.
+
+(* ------------------------------------------------------------------------------------------ *)
+(** BLS scheme, finalized key ids: the combinatorial index of gblsminsig/signatureproofscheme.go
+    (calculateCombinationIndex / decodeCombinationIndex / binomialCoefficient), Model/CombIndex.v. *)
+From GV Require Import Model.CombIndex Proofs.CombIndex.
+
+Theorem C13_binom_pascal : forall n k, binom (n + 1) (k + 1) = binom n k + binom n (k + 1).
+Proof. exact binom_pascal. Qed.
+Print Assumptions C13_binom_pascal.
+
+Theorem C13_binom_edges : forall n k, binom n 0 = 1 /\ (n < k -> binom n k = 0).
+Proof. intros n k. split; [apply binom_0_r|apply binom_gt]. Qed.
+Print Assumptions C13_binom_edges.
+
+(** encode never panics on a real subset and the index is below C(n, |S|). *)
+Theorem C13_encode_lt_binom : forall n l, asc_in n l ->
+  exists idx, encode n (Z.of_nat (length l)) l = Ok idx /\ idx < binom (Z.to_N n) (N.of_nat (length l)).
+Proof. exact encode_lt_binom. Qed.
+Print Assumptions C13_encode_lt_binom.
+
+Theorem C13_decode_encode : forall n l idx, asc_in n l -> l <> [] ->
+  encode n (Z.of_nat (length l)) l = Ok idx -> decode n (Z.of_nat (length l)) idx = Ok (mask_of l).
+Proof. exact decode_encode. Qed.
+Print Assumptions C13_decode_encode.
+
+(** decode panics exactly for k = 0, k > n or an index >= C(n,k): this is the guard
+    [combinationIndexInRange] that ValidateFinalizedProof applies to network input. *)
+Theorem C13_decode_total_iff : forall n k idx, (0 <= n)%Z -> (0 <= k)%Z ->
+  ((exists m, decode n k idx = Ok m) <-> (1 <= k <= n)%Z /\ idx < binom (Z.to_N n) (Z.to_N k)).
+Proof. exact decode_total_iff. Qed.
+Print Assumptions C13_decode_total_iff.
+
+Theorem C13_decode_sound : forall n k idx m, (0 <= k)%Z -> decode n k idx = Ok m ->
+  exists l, asc_in n l /\ length l = Z.to_nat k /\ m = mask_of l /\ encode n k l = Ok idx.
+Proof. exact decode_sound. Qed.
+Print Assumptions C13_decode_sound.
+
+Theorem C13_encode_mask_of : forall n l, asc_in n l ->
+  encode_mask n (mask_of l) = encode n (Z.of_nat (length l)) l.
+Proof. exact encode_mask_of. Qed.
+Print Assumptions C13_encode_mask_of.
